@@ -345,6 +345,10 @@ func checkC03(c *Check) {
 	c.Rule("R8", "shared with C11 (R6)", "Routes passes the handlers that remain after the leading method names to Route unchanged: a route registered through it runs the same chain as one registered through Get/Post", 1)
 	c.Share("C11", []string{"R6"}, 1)
 
+	// ---- R9 the stop test is sound: Written() knows about every byte that reached the client
+	c.Rule("R9", "shared with C13 (R1, R4, R6)", "the chain stops on ResponseWriter.Written(): every way of sending body bytes or a status through the wrapper commits through the wrapper's own WriteHeader first (no sibling of Write that lets the underlying writer send its implicit 200 behind the wrapper's back), and Written() is Status() != 0", 6)
+	c.Share("C13", []string{"R1", "R4", "R6"}, 6)
+
 	// ---- R7 chain assembly
 	c.Rule("R7", "E3 provenance", "the per-request handler slice is fresh: make, then app middleware, then the route's handlers; the action comes from the application", 3)
 	checkChainAssembly(c)
@@ -508,6 +512,23 @@ func checkChainAssembly(c *Check) {
 				hv := ci.Common().Args[3]
 				okH := vParam(m, handlersParamIndex(m))(hv) || isAppendOntoFreshThenParam(hv, m) || isHandlersCell(hv, m)
 				c.Cond(okH, k, p.Pos(ci.Pos()), "chain closure passes the registration's handler list to the context creator", "chain closure passes "+vstr(hv)+" instead of the registered handler list")
+				// the bind values handed to the context are this request's own: the closure's params parameter, or nil
+				pv := strip(ci.Common().Args[2])
+				okP := vNil(pv)
+				if prm, isP := pv.(*ssa.Parameter); isP && prm.Parent() == lit {
+					okP = true
+				}
+				if cv, isCv := pv.(*ssa.ChangeType); isCv {
+					if prm, isP := strip(cv.X).(*ssa.Parameter); isP && prm.Parent() == lit {
+						okP = true
+					}
+				}
+				if isFresh(pv) {
+					if in, isI := pv.(ssa.Instruction); isI && in.Parent() == lit {
+						okP = true // made inside the closure: one per request
+					}
+				}
+				c.Cond(okP, p.FuncKey(lit)+":params-per-request", p.Pos(ci.Pos()), "the Params handed to the context are the request's own (the closure's parameter, nil, or made in the closure)", "the chain closure hands every request the same Params object ("+vstr(pv)+", made when the route was registered): what one request stores in it is visible to the next and concurrent requests race on it")
 				// .run() on the result
 				ran := false
 				for _, r := range referrers(ci.(*ssa.Call)) {
